@@ -342,10 +342,10 @@ pub fn run_batch(cfg: Config) -> i32 {
                             let rw = out.work * 100 / (out.n_chars + 16);
                             st.max_work_per_char_x100 = st.max_work_per_char_x100.max(rw);
                             // percent of the memory budget used
-                            let rm = out.mem_peak * 100 / crate::c01::mem_budget(out.n_chars as usize, case.input.capacity());
+                            let rm = if out.mem_budget > 0 { out.mem_peak * 100 / out.mem_budget } else { 0 };
                             if rm > st.max_mem_per_char {
                                 st.max_mem_per_char = rm;
-                                st.max_mem_case = format!("run {i}: {} bytes peak for {} chars ({}, {})", out.mem_peak, out.n_chars, case.gen, case.client.describe());
+                                st.max_mem_case = format!("run {i}: {} bytes peak for {} chars/bytes ({}, {})", out.mem_peak, out.n_chars, case.gen, if case.prop == "C18" { case.trap.clone() } else { case.client.describe() });
                             }
                         }
                         st.work += out.work;
@@ -670,7 +670,7 @@ fn evidence_json(cfg: &Config, st: &Stats, total: u64, exhaustive: u64, exhausti
     cov.set("max_ticks_per_char_observed", J::Float(st.max_ticks_per_char_x100 as f64 / 100.0));
     cov.set("max_work_ticks_per_char_observed", J::Float(st.max_work_per_char_x100 as f64 / 100.0));
     cov.set("work_ticks_total", J::int(st.work));
-    if cfg.prop == "C01" {
+    if cfg.prop == "C01" || cfg.prop == "C18" {
         cov.set("max_percent_of_memory_budget_observed", J::int(st.max_mem_per_char));
         cov.set("max_peak_live_bytes_case", J::str(&st.max_mem_case));
     }
